@@ -265,6 +265,13 @@ class KdeFlow(Contract):
             posts.append(("the estimator receives exactly the scaled, filtered events", z3.BoolVal(bool(ok_kde))))
         else:
             sp = [c for c in calls if c[0] == "get_kde_spacing"]
+            # nothing selected: an empty grid and an empty density, nothing is computed
+            lens = list(ctx.__dict__.get("_opaque_len", {}).values())
+            empty_result = isinstance(result, tuple) and len(result) == 3 \
+                and all(isinstance(r, np.ndarray) and r.size == 0 for r in result)
+            if empty_result and not calls:
+                return [("an empty grid is returned only when no event is selected",
+                         z3.Or(*[ln.e == 0 for ln in lens]) if lens else z3.BoolVal(False))]
             ok_sp = len(sp) == 2 and dict(sp[0][2]).get("a") == fx and dict(sp[1][2]).get("a") == fy \
                 and all(dict(c[2]).get("ret_scaled") == ("const", "True") for c in sp)
             posts.append(("bin spacing and scaled data are computed by get_kde_spacing from the feature data restricted to "
